@@ -210,14 +210,12 @@ Proof.
   rewrite (names_split R' O').
   rewrite <- (core R' O' Od pre (map fst (kwonly s)) (vararg s) (varkw s) locals fd HRO HN Hfd).
   f_equal. rewrite Lpre. f_equal.
-  - Show. rewrite app_length, map_length. unfold req_params, opt_params. rewrite !map_length. lia.
+  - rewrite app_length. unfold req_params, opt_params. rewrite !map_length. lia.
   - now rewrite map_length.
   - assert (E : R ++ map fst O = pre ++ R' ++ map fst O').
     { unfold pre, R', O'. rewrite <- (firstn_skipn iml (R ++ map fst O)) at 1.
       f_equal. now rewrite skipn_app, skipn_map. }
     rewrite E. now rewrite <- !app_assoc.
-  - now destruct (vararg s).
-  - now destruct (varkw s).
   - unfold Od, O'. now rewrite <- map_app, firstn_skipn.
 Qed.
 
